@@ -8,8 +8,8 @@ for d in "$@"; do
   name="$(basename "$d")"
   prop="${name%-*}"
   # MATRIX=own: only the seed's own property (and C01, the catch-all for panics); default: all twenty checks
-  if [ "${MATRIX:-all}" = own ]; then
-    if [ "$prop" = C01 ]; then set_="C01"; else set_="$prop C01"; fi
+  if [ "${MATRIX:-all}" = own ] || [ "${MATRIX:-all}" = ownonly ]; then
+    if [ "$prop" = C01 ] || [ "${MATRIX:-all}" = ownonly ]; then set_="$prop"; else set_="$prop C01"; fi
     out="$(SKIP_SUITE=1 tools/matrix.sh "$d/patch.diff" $set_ 2>&1)"
     out="$out
 suite: $(cat "$d/verify.txt" 2>/dev/null)"
